@@ -20,8 +20,9 @@ VARIABLES l,          \* next line
           last,       \* last observation [st, nt, busy, idle] or the empty record
           phase,      \* "run" | "fair"
           v7,         \* protocol variant of the current run (reserved token values differ)
+          seen,       \* rules already reported for the current run
           bad         \* sequence of [run, line, why]
-tvars == <<l, run, skip, sub, snv, scl, del, ready, answered, last, phase, v7, bad>>
+tvars == <<l, run, skip, sub, snv, scl, del, ready, answered, last, phase, v7, seen, bad>>
 
 Ch == INSTANCE Channel
 E2 == <<"c", "s">>
@@ -31,7 +32,7 @@ NoObs == [st |-> <<"Unc", "Unc">>, nt |-> <<-1, -1>>, busy |-> <<FALSE, FALSE>>,
 Obs(ev) == [st |-> ev.st, nt |-> ev.nt, busy |-> ev.busy, idle |-> ev.idle]
 
 Init ==
-  /\ l = 1 /\ run = 0 /\ skip = FALSE
+  /\ l = 1 /\ run = 0 /\ skip = FALSE /\ seen = {}
   /\ sub = [e \in Ch!CE |-> <<>>] /\ snv = [e \in Ch!CE |-> {}] /\ scl = [e \in Ch!CE |-> {}]
   /\ del = [e \in Ch!CE |-> <<>>] /\ ready = 0 /\ answered = FALSE
   /\ last = NoObs /\ phase = "run" /\ v7 = FALSE /\ bad = <<>>
@@ -41,18 +42,33 @@ Reset(ev) ==
   /\ sub' = [e \in Ch!CE |-> <<>>] /\ snv' = [e \in Ch!CE |-> {}] /\ scl' = [e \in Ch!CE |-> {}]
   /\ del' = [e \in Ch!CE |-> <<>>]
   /\ ready' = (IF ev.online THEN 1 ELSE 0) /\ answered' = ev.online
-  /\ last' = NoObs /\ phase' = "run" /\ v7' = ev.v7
+  /\ last' = NoObs /\ phase' = "run" /\ v7' = ev.v7 /\ seen' = {}
   /\ UNCHANGED bad
 
 Reject(why) ==
   /\ bad' = Append(bad, [run |-> run, line |-> l, why |-> why])
   /\ skip' = TRUE
-  /\ UNCHANGED <<run, sub, snv, scl, del, ready, answered, last, phase, v7>>
+  /\ UNCHANGED <<run, sub, snv, scl, del, ready, answered, last, phase, v7, seen>>
 
 \* endpoint whose application receives the events of this step
 Target(ev) == IF ev.a \in {"deliver", "dup"} THEN Ch!CPeer(ev.act.from)
               ELSE IF ev.a = "forge" THEN ev.act.e ELSE "c"
 NReady(evs) == Len(SelectSeq(evs, LAMBDA x : x.e = "ready"))
+
+\* every rule the step breaks (a run is not abandoned at the first one: a later, different violation of another
+\* property must still be seen); each reason is recorded once per run
+W(id, why) == {[id |-> id, why |-> why]}
+Whys(ev, t, sub1, snv1, scl1, del1, ready1, ans1, o) ==
+  (IF ev.res \notin {"ok", "TooLongData"} THEN W("return", "C04/C02: call did not return normally: " \o ev.detail) ELSE {})
+  \cup (IF ev.malformed # <<>> THEN W("malformed", "C04: malformed datagram sent: " \o ev.malformed[1]) ELSE {})
+  \cup (IF ev.res = "TooLongData" /\ (ev.nouts # 0 \/ o # last) THEN W("refusal", "C04: a refused send changed the connection") ELSE {})
+  \cup (IF ev.a = "forge" /\ (ev.evs # <<>> \/ ev.nouts # 0 \/ o # last) THEN W("forge", "C03: a datagram without the agreed token had an effect") ELSE {})
+  \cup (IF ev.a \notin {"deliver", "dup", "forge"} /\ ev.evs # <<>> THEN W("nowhere", "C01: events out of nowhere") ELSE {})
+  \cup (IF ~Ch!Prefix(sub1, del1) THEN W("prefix", "C01: delivered vital chunks are not a prefix of the submitted ones") ELSE {})
+  \cup (IF ~Ch!Genuine(snv1, scl1, del1) THEN W("genuine", "C01: a delivered non-vital chunk was never sent") ELSE {})
+  \cup (IF ~Ch!ReadyOnce(ready1, ans1) THEN W("ready", "C01: ready more than once or before the acceptor answered") ELSE {})
+  \cup (IF \E i \in 1..2 : o.busy[i] /\ o.nt[i] = -1 THEN W("deadline", "C02: work pending but no deadline reported") ELSE {})
+  \cup (IF \E i \in 1..2 : ev.tokens[i] \in (IF v7 THEN {"FF"} ELSE {"FF", "Z0"}) THEN W("token", "C03: a reserved value was handed out as token") ELSE {})
 
 Step(ev) ==
   LET t == Target(ev)
@@ -64,22 +80,13 @@ Step(ev) ==
       ready1 == ready + NReady(ev.evs)
       ans1 == answered \/ ev.answered
       o == Obs(ev)
-      why ==
-        IF ev.res \notin {"ok", "TooLongData"} THEN "C04/C02: call did not return normally: " \o ev.detail
-        ELSE IF ev.malformed # <<>> THEN "C04: malformed datagram sent: " \o ev.malformed[1]
-        ELSE IF ev.res = "TooLongData" /\ (ev.nouts # 0 \/ o # last) THEN "C04: a refused send changed the connection"
-        ELSE IF ev.a = "forge" /\ (ev.evs # <<>> \/ ev.nouts # 0 \/ o # last) THEN "C03: a datagram without the agreed token had an effect"
-        ELSE IF ev.a \notin {"deliver", "dup", "forge"} /\ ev.evs # <<>> THEN "C01: events out of nowhere"
-        ELSE IF ~Ch!Prefix(sub1, del1) THEN "C01: delivered vital chunks are not a prefix of the submitted ones"
-        ELSE IF ~Ch!Genuine(snv1, scl1, del1) THEN "C01: a delivered non-vital chunk was never sent"
-        ELSE IF ~Ch!ReadyOnce(ready1, ans1) THEN "C01: ready more than once or before the acceptor answered"
-        ELSE IF \E i \in 1..2 : o.busy[i] /\ o.nt[i] = -1 THEN "C02: work pending but no deadline reported"
-        ELSE IF \E i \in 1..2 : ev.tokens[i] \in (IF v7 THEN {"FF"} ELSE {"FF", "Z0"}) THEN "C03: a reserved value was handed out as token"
-        ELSE "ok"
-  IN IF why # "ok" THEN Reject(why)
-     ELSE /\ sub' = sub1 /\ snv' = snv1 /\ scl' = scl1 /\ del' = del1 /\ ready' = ready1 /\ answered' = ans1
-          /\ last' = o
-          /\ UNCHANGED <<run, skip, phase, v7, bad>>
+      new == {w \in Whys(ev, t, sub1, snv1, scl1, del1, ready1, ans1, o) : w.id \notin seen}
+      newq == SetToSeq(new)
+  IN /\ sub' = sub1 /\ snv' = snv1 /\ scl' = scl1 /\ del' = del1 /\ ready' = ready1 /\ answered' = ans1
+     /\ last' = o
+     /\ bad' = bad \o [i \in 1..Len(newq) |-> [run |-> run, line |-> l, why |-> newq[i].why]]
+     /\ seen' = seen \cup {w.id : w \in new}
+     /\ UNCHANGED <<run, skip, phase, v7>>
 
 Quiescent ==
   \/ last.st[1] = "Unc"
@@ -92,12 +99,12 @@ Next ==
   /\ l' = l + 1
   /\ LET ev == Rec[l] IN
      IF ev.a = "reset" THEN Reset(ev)
-     ELSE IF skip THEN UNCHANGED <<run, skip, sub, snv, scl, del, ready, answered, last, phase, v7, bad>>
-     ELSE IF ev.a = "fair" THEN phase' = "fair" /\ UNCHANGED <<run, skip, sub, snv, scl, del, ready, answered, last, v7, bad>>
-     ELSE IF ev.a = "end" THEN (IF Quiescent THEN UNCHANGED <<run, skip, sub, snv, scl, del, ready, answered, last, phase, v7, bad>>
+     ELSE IF skip THEN UNCHANGED <<run, skip, sub, snv, scl, del, ready, answered, last, phase, v7, seen, bad>>
+     ELSE IF ev.a = "fair" THEN phase' = "fair" /\ UNCHANGED <<run, skip, sub, snv, scl, del, ready, answered, last, v7, seen, bad>>
+     ELSE IF ev.a = "end" THEN (IF Quiescent THEN UNCHANGED <<run, skip, sub, snv, scl, del, ready, answered, last, phase, v7, seen, bad>>
                                 ELSE Reject("C02: not quiescent after the fair suffix"))
      ELSE IF ev.res = "skipped"         \* a schedule step that does not apply to what the code really did: skipped
-          THEN UNCHANGED <<run, skip, sub, snv, scl, del, ready, answered, last, phase, v7, bad>>
+          THEN UNCHANGED <<run, skip, sub, snv, scl, del, ready, answered, last, phase, v7, seen, bad>>
      ELSE Step(ev)
 
 TraceSpec == Init /\ [][Next]_tvars
